@@ -236,15 +236,18 @@ func (sc *Scheduler) Schedule(ctx context.Context, g *ExecutionGraph, done chan 
 					}
 					break ExecRepeat
 				}
-				// finish the node
-				if node.State().Status == NodeStatusRunning {
-					node.setStatus(NodeStatusSuccess)
-				}
+				// finish the node: its files are flushed and closed before it
+				// is marked as succeeded, so that a step whose output cannot
+				// be written is never seen as finished (and its dependents
+				// launched) before it is marked as failed
 				if !handedOver {
 					if err := sc.teardownNode(node); err != nil {
 						sc.setLastError(err)
 						node.setStatus(NodeStatusError)
 					}
+				}
+				if node.State().Status == NodeStatusRunning {
+					node.setStatus(NodeStatusSuccess)
 				}
 				if done != nil {
 					done <- node
